@@ -108,6 +108,13 @@ def denseCase : P String := do
   let asg := (List.range rows).foldl (fun d x =>
     match rowAssign s d x ((List.range cols).map fun y => (1000 * (x + 1) + y).toFloat) with
     | .ok d => d | .error _ => d) data
+  -- row assignment from a longer vector (the surplus is ignored), last row first
+  let zero : Array Float := Array.replicate s.size 0.0
+  let asgx := (List.range rows).reverse.foldl (fun d x =>
+    let n := cols + 1 + x % 2
+    match rowAssign s d x ((List.range n).map fun y =>
+        if y < cols then (1000 * (x + 1) + y).toFloat else (7000000 + 10 * x + y).toFloat) with
+    | .ok d => d | .error _ => d) zero
   -- Max / Min act on every storage slot (`for (auto& y : data_)`)
   let thr := (s.size / 2).toFloat + 0.5
   let val := fun (i : Nat) => ((i * 7919) % (s.size + 1) + 1).toFloat
@@ -123,7 +130,7 @@ def denseCase : P String := do
   let other : Array Float := Array.replicate (s.size + (if s.size % 2 == 0 then 0 else 1)) 2.5
   let cp := match copyFlat data other with | some d => showFs d.toList | none => "runtime_error"
   let sw := match swapFlat data other with | some (a, b) => showFs (a.toList ++ b.toList) | none => "runtime_error"
-  pure s!"dense size={s.size} addr={showNs addrs} ext={showFs ext} axpy={showNs touched} asg={showFs asg.toList} max={showNs mx} min={showNs mn} fe2={showFs fe2.toList} fe3={showFs fe3.toList} fill={showFs fl.toList} copy={cp} swap={sw}"
+  pure s!"dense size={s.size} addr={showNs addrs} ext={showFs ext} axpy={showNs touched} asg={showFs asg.toList} asgx={showFs asgx.toList} max={showNs mx} min={showNs mn} fe2={showFs fe2.toList} fe3={showFs fe3.toList} fill={showFs fl.toList} copy={cp} swap={sw}"
 
 /-! ### forcing -/
 def forcingCase : P String := do
